@@ -381,12 +381,19 @@ def agree(impl, model, exact):
 
 
 def too_big(model):
-    """products beyond 2^50 leave the exactly representable range (int64 wrap / float rounding): not compared"""
+    """products that leave the exactly representable range (|v| >= 2^50, or an odd part that needs more than 53 bits,
+    or an int64 wrap): every partial product of a product of integers / 2^-k multiples divides the final odd part, so
+    a representable final value means an exact evaluation; the others are not compared"""
     lim = 2 ** 50
 
     def big(s):
         f = Fraction(s)
-        return abs(f) >= lim
+        if abs(f) >= lim:
+            return True
+        q = f.denominator
+        if q & (q - 1):
+            return True
+        return abs(f.numerator) >= 2 ** 53
 
     if model.get("k") == "s":
         return big(model["re"]) or big(model["im"])
